@@ -363,22 +363,38 @@ def stereo_mol_graph_to_rdmol(
                 Chem.HybridizationType.SP2
             )
 
+            # reference substituents: a lone pair (None) can not be a stereo
+            # atom in RDKit, use the other substituent of that end instead.
+            # atoms 0/4 and 1/5 are cis, 0/5 and 1/4 are trans.
+            i_ref = 0 if b_stereo.atoms[0] is not None else 1
+            j_ref = 4 if b_stereo.atoms[4] is not None else 5
+            rd_cis_trans = (
+                Chem.rdchem.BondStereo.STEREOZ
+                if (i_ref, j_ref) in ((0, 4), (1, 5))
+                else Chem.rdchem.BondStereo.STEREOE
+            )
+
             if b_stereo.parity is None:
+                rd_bond.SetStereo(Chem.rdchem.BondStereo.STEREONONE)
+
+            elif (
+                b_stereo.atoms[i_ref] is None or b_stereo.atoms[j_ref] is None
+            ):
                 rd_bond.SetStereo(Chem.rdchem.BondStereo.STEREONONE)
 
             elif (a1, a2) == (new_a1, new_a2):
                 rd_bond.SetStereoAtoms(
-                    map_num_idx_dict[b_stereo.atoms[0]],
-                    map_num_idx_dict[b_stereo.atoms[4]],
+                    map_num_idx_dict[b_stereo.atoms[i_ref]],
+                    map_num_idx_dict[b_stereo.atoms[j_ref]],
                 )
-                rd_bond.SetStereo(Chem.rdchem.BondStereo.STEREOZ)
+                rd_bond.SetStereo(rd_cis_trans)
 
             elif (a1, a2) == (new_a2, new_a1):
                 rd_bond.SetStereoAtoms(
-                    map_num_idx_dict[b_stereo.atoms[4]],
-                    map_num_idx_dict[b_stereo.atoms[0]],
+                    map_num_idx_dict[b_stereo.atoms[j_ref]],
+                    map_num_idx_dict[b_stereo.atoms[i_ref]],
                 )
-                rd_bond.SetStereo(Chem.rdchem.BondStereo.STEREOZ)
+                rd_bond.SetStereo(rd_cis_trans)
             else:
                 raise Exception(f"something wrong with {b_stereo}")
 
